@@ -437,6 +437,29 @@ func (fc *FnCtx) evalCall(x *ECall, env *Env) Val {
 			return Val{K: KPtr, T: ht, C: []string{v.C[0]}}
 		}
 		fc.fail("hdr of kind %d", v.K)
+	case "sliceoff":
+		// sliceoff(x): offset of slice/string x inside its backing array
+		v := fc.evalExpr(x.Args[0], env)
+		if v.K != KSlice && v.K != KStr {
+			fc.fail("sliceoff of kind %d", v.K)
+		}
+		return intVal(v.C[1])
+	case "issub":
+		// issub(x, s): string x is physically a substring of s
+		x1 := fc.evalExpr(x.Args[0], env)
+		s1 := fc.evalExpr(x.Args[1], env)
+		if x1.K != KStr || s1.K != KStr {
+			fc.fail("issub expects strings")
+		}
+		return boolVal(fmt.Sprintf("(and (= %s %s) (<= %s %s) (<= (+ %s %s) (+ %s %s)))", x1.C[0], s1.C[0], s1.C[1], x1.C[1], x1.C[1], x1.C[2], s1.C[1], s1.C[2]))
+	case "start":
+		// start(x, s): index in s at which the substring x begins
+		x1 := fc.evalExpr(x.Args[0], env)
+		s1 := fc.evalExpr(x.Args[1], env)
+		if x1.K != KStr || s1.K != KStr {
+			fc.fail("start expects strings")
+		}
+		return intVal(fmt.Sprintf("(- %s %s)", x1.C[1], s1.C[1]))
 	case "ref":
 		// ref(x): allocation reference of a slice / pointer / interface payload
 		v := fc.evalExpr(x.Args[0], env)
@@ -590,7 +613,7 @@ func (fc *FnCtx) specDefs(axiomEnc bool) []string {
 			ret = SBool
 		}
 		r := rendered{sig: strings.Join(psig, " "), ret: ret, params: strings.Join(ps, " "), call: strings.Join(pcall, " ")}
-		if !sp.Uninter {
+		if !sp.Uninter && !fc.opaque(n) {
 			env := &Env{fc: fc, heap: &fc.entry, old: &fc.entry, bound: bound,
 				lookup: func(string) (Val, bool) { return Val{}, false }}
 			v := fc.evalExpr(sp.Body, env)
@@ -629,4 +652,18 @@ func (fc *FnCtx) specDefs(axiomEnc bool) []string {
 		out = append(out, fmt.Sprintf("(define-funs-rec (%s) (%s))", strings.Join(sigs, " "), strings.Join(bodies, " ")))
 	}
 	return out
+}
+
+// opaque: the contract asks to hide the definition of a spec function in this function's proofs
+// (opt opaque = f g h); the function is then an uninterpreted symbol, which is sound for proving.
+func (fc *FnCtx) opaque(name string) bool {
+	if fc.con == nil {
+		return false
+	}
+	for _, n := range strings.Fields(strings.ReplaceAll(fc.con.Opts["opaque"], ",", " ")) {
+		if n == name {
+			return true
+		}
+	}
+	return false
 }
